@@ -841,6 +841,35 @@ fn part2_source(rep: &Reporter, st: &Stats, samples: &Samp, spec: &LangSpec, src
       }
       fc.check_file("p2:make_edit", &edits, false, &case);
     }
+    // --- the same fixer asked for its range with a core Pattern as the matcher (a matcher that
+    // REPORTS A MATCH LENGTH, which a rule does not): for the rules whose pattern is `$A` every
+    // matched node is matched by the pattern `$A` over its whole extent, so the same judgement applies
+    if cfg.json["rule"]["pattern"] == json!("$A") {
+      if let Ok(pat) = ast_grep_core::Pattern::try_new("$A", spec.lang) {
+        let mut pedits = vec![];
+        let mut ok = true;
+        for m in &matches {
+          match guarded(Aus(|| to_ed(m.make_edit(&pat, &cfg.fixer)))) {
+            Err(msg) => {
+              let mut c = case();
+              c["match"] = json!([m.range().start, m.range().end]);
+              c["panic"] = json!(msg);
+              viol(rep, &format!("p2:make_edit:pattern-matcher:panic:{}", psig(&msg)), c);
+              ok = false;
+            }
+            Ok(e) => pedits.push(e),
+          }
+        }
+        if ok && fc.wf_all("p2:make_edit:pattern-matcher", &pedits, &case) {
+          st.p2_front_edits.fetch_add(pedits.len() as u64, Relaxed);
+          for (e, m) in pedits.iter().zip(&matches) {
+            if let Ok(Verdict::Bad(what)) = guarded(Aus(|| judge(cfg, m.get_node(), e, true))) {
+              report("make_edit:pattern-matcher", &what, e, m.get_node());
+            }
+          }
+        }
+      }
+    }
     // --- the library's replace_all / replace with the same matcher and fixer: each edit is
     // individually well-formed (whether expansions are honoured there is C08's question)
     let outer = {
@@ -1407,7 +1436,7 @@ fn main() {
   let cov = json!({
     "evaluations": g(&st.p1_evals) + g(&st.p2_evals) + g(&st.p3_evals),
     "distinct_nontrivial": g(&st.p1_with_edits) + g(&st.p2_with_matches) + g(&st.p3_rewritten),
-    "rule": "an evaluation is one (source, pattern) pair of part 1 (x 6 templates when it yields edits), one (source, rule+fix config) pair of part 2, one (source, rewrite config) pair of part 3. Sources: every token string <= L over the language's token table + corpus + CRLF corpus (L per language below). Part 1 patterns: every string <= 3 tokens over (first 7 source tokens + $A $B $_ $$A $$$ $$$A) accepted by Pattern::try_new; templates x, $A, ($A), $$$A, empty, é$B. Part 2 configs: 3 rules ({pattern: $A}, {pattern: $A, kind: K1}, {kind: K2}) x (string fix + object fix with every pair of 7 expandStart x 7 expandEnd variants: absent, regex SEP, regex SEP stopBy end, kind K1, kind K1 stopBy end, regex SEP stopBy {kind K1}, kind K2 stopBy {regex SEP}). Part 3 configs: outer {pattern: $A} (source $A) and the listed `$$$A` patterns (source $$$A) x rewriter lists (24 single rewriters = 4 rules x 6 fixes; 108 ordered pairs with different rules) x joinBy {absent, +}. K1/K2 = the two most frequent named kinds among nodes with a sibling in the trees of the L<=2 sources. distinct_nontrivial = (source, pattern) pairs of part 1 that produced at least one edit + (source, config) pairs of part 2 with at least one match + part 3 outer matches whose transformed string was judged and contains at least one rewriter replacement (each is a distinct (source, program[, match]) triple)",
+    "rule": "an evaluation is one (source, pattern) pair of part 1 (x 6 templates when it yields edits), one (source, rule+fix config) pair of part 2, one (source, rewrite config) pair of part 3. Sources: every token string <= L over the language's token table + corpus + CRLF corpus (L per language below). Part 1 patterns: every string <= 3 tokens over (first 7 source tokens + $A $B $_ $$A $$$ $$$A) accepted by Pattern::try_new; templates x, $A, ($A), $$$A, empty, é$B. Part 2 configs: 3 rules ({pattern: $A}, {pattern: $A, kind: K1}, {kind: K2}; for the first two the fixer is also driven with the core Pattern `$A` as matcher, which reports a match length) x (string fix + object fix with every pair of 7 expandStart x 7 expandEnd variants: absent, regex SEP, regex SEP stopBy end, kind K1, kind K1 stopBy end, regex SEP stopBy {kind K1}, kind K2 stopBy {regex SEP}). Part 3 configs: outer {pattern: $A} (source $A) and the listed `$$$A` patterns (source $$$A) x rewriter lists (24 single rewriters = 4 rules x 6 fixes; 108 ordered pairs with different rules) x joinBy {absent, +}. K1/K2 = the two most frequent named kinds among nodes with a sibling in the trees of the L<=2 sources. distinct_nontrivial = (source, pattern) pairs of part 1 that produced at least one edit + (source, config) pairs of part 2 with at least one match + part 3 outer matches whose transformed string was judged and contains at least one rewriter replacement (each is a distinct (source, program[, match]) triple)",
     "samples": samples.take(),
     "exhaustive": true,
     "part1": {"pairs": g(&st.p1_evals), "pairs_with_edits": g(&st.p1_with_edits), "replace_all_edits_checked": g(&st.p1_edits), "replace_edits_checked": g(&st.p1_replace)},
